@@ -1,11 +1,13 @@
 //@ unit U-SESSSHARD
 //@ props C11 C05 C16
 //@ verus-args --rlimit 100 --triggers-mode silent
-//@ rules-from shflush
+//@ rules-from shflush ujoin exportwrap
+//@ config MDB_SHARD_MIN_TARGET_SIZE MDB_SHARD_LOCAL_CACHE_EXPIRATION_SECS
 //@ gsubst `dyn Client + Send + Sync` => `VxClient` :: R11 stub type for the cas_client trait object (not called by the functions under proof)
 #![feature(allocator_api)]
 #![allow(non_snake_case, unused, dropping_references)]
 use vstd::prelude::*;
+use vstd::multiset::*;
 use std::collections::{BTreeMap, HashMap};
 use std::sync::Arc;
 verus! {
@@ -83,7 +85,8 @@ uninterp spec fn vx_recorded_block(info: MDBCASInfo) -> bool;
 spec fn vx_cas_recorded(xorb_hash: MerkleHash) -> bool { vx_recorded(VxRecId::Cas(xorb_hash)) }
 
 // ---- dependency stubs (R11) --------------------------------------------------------------------------------------------------
-pub struct PathBuf { _p: () }
+pub struct PathBuf { pub id: int }   // an opaque identity (two directories can differ)
+pub type Path = PathBuf;
 pub struct AtomicBool { _p: () }
 pub struct ShardBookkeeper { _p: () }
 impl VxLockInv for ShardBookkeeper {
@@ -93,7 +96,9 @@ impl VxLockInv for ShardBookkeeper {
     spec fn vx_acq_bound(&self) -> bool { true }
 }
 pub struct VxClient { _p: () }
-pub struct TranslatorConfig { _p: () }
+pub type RepoSalt = [u8; 32];
+pub struct ShardConfig { pub prefix: String, pub repo_salt: RepoSalt }   // the two fields upload_and_register_session_shards reads
+pub struct TranslatorConfig { pub shard_config: ShardConfig }
 pub struct TempDir { _p: () }
 #[verifier::external_body] #[verifier::accept_recursive_types(T)] pub struct JoinSet<T> { _p: std::marker::PhantomData<T> }
 
@@ -302,8 +307,20 @@ spec fn locked_here(m: ShardFileManager) -> bool { exists|s: MDBInMemoryShard| #
 impl ShardFileManager {
     /// U-SHFLUSH proves `flush` (release obligations `no_loss`, "Ok => everything found under the lock is in a shard file"); its
     /// result is only propagated here
+    /// added for `upload_and_register_session_shards`: Ok => what the in-memory shard held is in a shard file of THIS manager's
+    /// directory (U-SHFLUSH's "Ok => everything found under the lock is in a shard file"), as the marker the consolidation asks for
     #[verifier::external_body]
-    fn flush(&self) -> Result<Option<PathBuf>> { unimplemented!() }
+    fn flush(&self) -> (r: Result<Option<PathBuf>>)
+        ensures r is Ok ==> vx_dir_flushed(self.shard_directory),
+    { unimplemented!() }
+    /// `&self.shard_directory`
+    #[verifier::external_body]
+    fn shard_directory(&self) -> (r: &Path) ensures *r == self.shard_directory { unimplemented!() }
+    /// U-SHREG proves `register_shards` (every shard of the slice ends up in the bookkeeper's collection of its key); here: the marker
+    #[verifier::external_body]
+    fn register_shards(&self, new_shards: &[Arc<MDBShardFile>]) -> (r: Result<()>)
+        ensures r is Ok ==> forall|i: int| 0 <= i < new_shards@.len() ==> vx_registered_in(*self, *#[trigger] new_shards@[i]),
+    { unimplemented!() }
     /// U-SFMQ proves the query (soundness: in-memory `truthful_mem` or `disk_truthful` under the probing collection's key). Here:
     /// its answer gets a name, and the soundness clause is paired with the faithfulness of the records the shards hold
     /// (`mgr_answer_ok`; the faithfulness half is the assumption, see notes)
@@ -398,6 +415,212 @@ impl SessionShardInterface {
 //@ contract
         requires vx_counter_fits(), spec_file_num_bytes(file_info) <= 0xff_ffff_ff00,
         ensures /*@C11,C16*/ r is Ok ==> vx_recorded(VxRecId::File(file_info.metadata.file_hash)) && locked_here(*self.session_shard_manager),
+//@ end
+}
+
+// =====================================================================================================================
+// Layer 3b (added 2026-10-04, seed C11f1): SessionShardInterface::upload_and_register_session_shards — every session shard that this call
+// uploads is ALSO exported into the cache directory and registered with the cache shard manager ("session shards moved to the cache and
+// registered", C11 mechanism 3: that is how a later session sharing the local shard cache finds the xorbs of this one).
+// The join bookkeeping (C16: every task joined, every result Ok) and the byte ledger (C14) of the same function are U-JOIN's; the
+// JoinSet / future stubs below are U-JOIN's text reduced to the outcome multiset.
+// =====================================================================================================================
+#[verifier::external_body]
+pub struct JoinError { _p: () }
+#[verifier::external_body]
+pub struct CasClientError { _p: () }
+/// stands for std::io::Error (result of the outlined `std::fs::read`)
+#[verifier::external_body]
+pub struct VxIoError { _p: () }
+// thiserror `#[from]` conversions used by the `?`s of the function and its task (only Err-ness matters)
+impl From<JoinError> for DataProcessingError { #[verifier::external_body] fn from(e: JoinError) -> DataProcessingError { unimplemented!() } }
+impl From<CasClientError> for DataProcessingError { #[verifier::external_body] fn from(e: CasClientError) -> DataProcessingError { unimplemented!() } }
+impl From<VxIoError> for DataProcessingError { #[verifier::external_body] fn from(e: VxIoError) -> DataProcessingError { unimplemented!() } }
+
+/// opaque future produced by rule ujoin.R16 from an `async move { .. }` block; `outcome()` = what joining it will yield (prophecy)
+#[verifier::external_body]
+#[verifier::accept_recursive_types(T)]
+pub struct VxFuture<T> { _p: std::marker::PhantomData<T> }
+impl<T> VxFuture<T> { uninterp spec fn outcome(&self) -> std::result::Result<T, JoinError>; }
+impl<T> View for JoinSet<T> {
+    type V = Multiset<std::result::Result<T, JoinError>>;
+    uninterp spec fn view(&self) -> Multiset<std::result::Result<T, JoinError>>;
+}
+impl<T> JoinSet<T> {
+    #[verifier::external_body]
+    fn new() -> (r: Self) ensures r@ == Multiset::<std::result::Result<T, JoinError>>::empty() { unimplemented!() }
+    #[verifier::external_body]
+    fn spawn(&mut self, task: VxFuture<T>) ensures final(self)@ == old(self)@.insert(task.outcome()) { unimplemented!() }
+    /// tokio: "Returns None if the set is empty"; otherwise waits for *some* task (arbitrary member: any completion order)
+    #[verifier::external_body]
+    fn join_next(&mut self) -> (r: Option<std::result::Result<T, JoinError>>)
+        ensures match r {
+            None => old(self)@.len() == 0 && final(self)@ == old(self)@,
+            Some(x) => old(self)@.contains(x) && final(self)@ == old(self)@.remove(x),
+        }
+    { unimplemented!() }
+}
+pub type TaskRes = std::result::Result<DataResult<()>, JoinError>;
+spec fn task_ok(x: TaskRes) -> bool { x matches Ok(Ok(_)) }
+/// `now` is what is left of `before` after removing only successful results (U-JOIN's predicate)
+spec fn drained_ok(before: Multiset<TaskRes>, now: Multiset<TaskRes>) -> bool {
+    now.subset_of(before) && forall|x: TaskRes| before.count(x) > now.count(x) ==> #[trigger] task_ok(x)
+}
+proof fn lemma_drained_all(before: Multiset<TaskRes>, now: Multiset<TaskRes>)
+    requires drained_ok(before, now), now.len() == 0,
+    ensures forall|x: TaskRes| before.count(x) > 0 ==> #[trigger] task_ok(x),
+{
+    assert forall|x: TaskRes| before.count(x) > 0 implies #[trigger] task_ok(x) by {
+        if now.count(x) > 0 { assert(now.contains(x)); assert(now.len() > 0); }
+    }
+}
+
+// ---- vocabulary of the clause (markers in the style of `vx_recorded` above: uninterpreted, ONLY the named stub establishes each) ----------
+/// the shard with this hash was accepted by the store: only a successful `upload_shard` establishes it (U-JOIN's capability, same name)
+uninterp spec fn vx_shard_in_store(h: MerkleHash) -> bool;
+/// `copy` is the handle of a hash-named shard file in directory `dir` whose content is `src`'s file with ONLY the footer's expiry
+/// re-stamped to now + `valid_secs` seconds (U-EXPORTWRAP's postcondition of `MDBShardFile::export_with_expiration`): all xorb and file
+/// records of `src` are in it
+uninterp spec fn vx_cache_copy(copy: MDBShardFile, src: MDBShardFile, dir: PathBuf, valid_secs: u64) -> bool;
+/// shard file `sf` is in manager `m`'s bookkeeper, so `m`'s dedup queries consult it (U-SHREG `register_shards`)
+uninterp spec fn vx_registered_in(m: ShardFileManager, sf: MDBShardFile) -> bool;
+/// a successful `flush` of the manager over directory `dir` happened: what its in-memory shard held is in a shard file there (U-SHFLUSH)
+uninterp spec fn vx_dir_flushed(dir: PathBuf) -> bool;
+/// `l` is a list `consolidate_shards_in_directory(dir, ..)` returned: shard files of `dir` that together hold every record of the
+/// shard files that were there (U-CONSOLIDATE)
+uninterp spec fn vx_consolidated(l: Seq<Arc<MDBShardFile>>, dir: PathBuf) -> bool;
+/// the cache manager `m` serves a copy of `src` that lives in ITS OWN directory and is valid for the configured cache expiration
+spec fn cached_in(src: MDBShardFile, m: ShardFileManager) -> bool {
+    exists|c: MDBShardFile| #[trigger] vx_cache_copy(c, src, m.shard_directory, spec_MDB_SHARD_LOCAL_CACHE_EXPIRATION_SECS()) && vx_registered_in(m, c)
+}
+/// what must hold of one session shard when its task reports success (nothing is uploaded or made visible in a dry run)
+spec fn shard_done(dry_run: bool, src: MDBShardFile, m: ShardFileManager) -> bool {
+    dry_run || (vx_shard_in_store(src.shard_hash) && cached_in(src, m))
+}
+spec fn all_done(l: Seq<Arc<MDBShardFile>>, dry_run: bool, m: ShardFileManager) -> bool {
+    forall|i: int| 0 <= i < l.len() ==> shard_done(dry_run, *#[trigger] l[i], m)
+}
+
+// ---- dependency stubs ------------------------------------------------------------------------------------------------------------
+/// mdb_shard::MDBShardInfo: opaque; the two count accessors exist so that an edit that consults them stays decidable
+pub struct MDBShardInfo { pub x: u64 }
+impl MDBShardInfo {
+    #[verifier::external_body] fn num_file_entries(&self) -> usize { unimplemented!() }
+    #[verifier::external_body] fn num_cas_entries(&self) -> usize { unimplemented!() }
+}
+/// mdb_shard::MDBShardFile (the fields the function reads)
+pub struct MDBShardFile { pub shard_hash: MerkleHash, pub path: PathBuf, pub shard: MDBShardInfo }
+pub struct Duration { pub secs: u64 }
+impl Duration { #[verifier::external_body] fn from_secs(s: u64) -> (r: Duration) ensures r.secs == s { unimplemented!() } }
+impl MDBShardFile {
+    /// U-EXPORTWRAP proves the wrapper (new hash-named file in `target_directory` = this file with the expiry re-stamped to
+    /// now + shard_valid_for; the returned handle refers to it).  REQUIRES (C16 "local registration follows the successful upload", and
+    /// C11: a later session must not dedup against a shard the store never got): the source shard is in the store.
+    #[verifier::external_body]
+    fn export_with_expiration(&self, target_directory: &Path, shard_valid_for: Duration) -> (r: Result<Arc<MDBShardFile>>)
+        requires /*@C11,C16*/ vx_shard_in_store(self.shard_hash),
+        ensures r matches Ok(n) ==> vx_cache_copy(*n, *self, *target_directory, shard_valid_for.secs),
+    { unimplemented!() }
+}
+impl VxClient {
+    /// cas_client::RegistrationClient::upload_shard
+    #[verifier::external_body]
+    fn upload_shard(&self, prefix: &str, hash: &MerkleHash, force_sync: bool, shard_data: &[u8], salt: &RepoSalt) -> (r: std::result::Result<bool, CasClientError>)
+        ensures r is Ok ==> vx_shard_in_store(*hash),
+    { unimplemented!() }
+}
+pub enum Ordering { Relaxed }
+/// the shared byte counter (its ledger is U-JOIN's C14 subject; no contract here)
+#[verifier::external_body]
+pub struct AtomicUsize { _p: () }
+impl AtomicUsize {
+    #[verifier::external_body] fn new(v: usize) -> Self { unimplemented!() }
+    #[verifier::external_body] fn fetch_add(&self, v: usize, o: Ordering) -> usize { unimplemented!() }
+    #[verifier::external_body] fn load(&self, o: Ordering) -> usize { unimplemented!() }
+}
+pub struct OwnedSemaphorePermit { _p: () }
+#[verifier::external_body]
+fn acquire_upload_permit() -> DataResult<OwnedSemaphorePermit> { unimplemented!() }
+/// outline (R7) of `std::fs::read(&si.path)`: the bytes are only handed to the store
+#[verifier::external_body]
+fn vx_fs_read(p: &PathBuf) -> std::result::Result<Vec<u8>, VxIoError> { unimplemented!() }
+uninterp spec fn spec_MDB_SHARD_LOCAL_CACHE_EXPIRATION_SECS() -> u64;
+#[verifier::external_body] fn MDB_SHARD_LOCAL_CACHE_EXPIRATION_SECS() -> (r: u64) ensures r == spec_MDB_SHARD_LOCAL_CACHE_EXPIRATION_SECS() { unimplemented!() }
+uninterp spec fn spec_MDB_SHARD_MIN_TARGET_SIZE() -> u64;
+#[verifier::external_body] fn MDB_SHARD_MIN_TARGET_SIZE() -> (r: u64) ensures r == spec_MDB_SHARD_MIN_TARGET_SIZE() { unimplemented!() }
+/// mdb_shard::session_directory::consolidate_shards_in_directory (U-CONSOLIDATE).  REQUIRES that the directory's manager was flushed
+/// (otherwise records still in memory are in no shard of the returned list)
+#[verifier::external_body]
+fn consolidate_shards_in_directory(session_directory: &Path, target_max_size: u64) -> (r: Result<Vec<Arc<MDBShardFile>>>)
+    requires /*@C11*/ vx_dir_flushed(*session_directory),
+    ensures r matches Ok(l) ==> vx_consolidated(l@, *session_directory),
+{ unimplemented!() }
+/// Rule exportwrap.R16e keeps the spawned `async move { .. }` body where it is written and evaluates it as a closure at the spawn
+/// (so it sees exactly the locals it captures).  `VxTaskOut` = the task's value type.
+type VxTaskOut = DataResult<()>;
+/// ASSUMED (R16e): joining a task yields the value of its body, or a JoinError if it panicked / was cancelled.  The markers the body
+/// establishes are timeless facts, so evaluating the body at the spawn instead of "some time before the join" loses nothing.
+#[verifier::external_body]
+fn vx_ready(o: VxTaskOut) -> (f: VxFuture<VxTaskOut>)
+    ensures f.outcome() is Ok ==> f.outcome() == Ok::<VxTaskOut, JoinError>(o),
+{ unimplemented!() }
+/// THE TASK'S POSTCONDITION, checked at every exit of the body that yields a value (`return E;`, tail expression; a `?` exit yields Err):
+/// the task reports success only if its shard is in the store AND a copy was exported into the cache manager's directory (valid for the
+/// configured expiration) AND that copy was registered with the cache manager - whatever the shard contains.  Identity function.
+fn vx_task_exit(Ghost(dry_run): Ghost<bool>, Ghost(si): Ghost<Arc<MDBShardFile>>, Ghost(cache_shard_manager): Ghost<Arc<ShardFileManager>>, e: VxTaskOut) -> (r: VxTaskOut)
+    requires /*@C11*/ e is Ok ==> shard_done(dry_run, *si, *cache_shard_manager),
+    ensures r == e,
+{ e }
+
+impl SessionShardInterface {
+//@ extract data/src/shard_interface.rs in `impl SessionShardInterface` fn upload_and_register_session_shards
+//@ ret ret
+//@ rules R16e R17
+//@ subst `Result<` => `DataResult<` :: the data crate's `Result` alias
+//@ subst `std::fs::read(&si.path)` => `vx_fs_read(&si.path)` :: R7 outline of the file read (std::fs is outside Verus); result arbitrary
+//@ subst `vx_task_post(vx_ret)` => `(vx_ret is Ok ==> shard_done(dry_run, *si, *cache_shard_manager))` :: R16e: the task's postcondition, over the variables the body captures
+//@ subst `vx_task_exit_here(` => `vx_task_exit(Ghost(dry_run), Ghost(si), Ghost(cache_shard_manager), ` :: R16e: exit check of the task body (identity function whose precondition is the task's postcondition)
+//@ contract
+        ensures
+            // C11: Ok (outside dry run) => EVERY shard of the consolidated session list was accepted by the store AND a copy of it, valid for
+            // the configured cache expiration, was exported into the CACHE manager's directory and registered with the CACHE manager
+            /*@C11*/ (ret is Ok && !self.dry_run) ==> exists|l: Seq<Arc<MDBShardFile>>|
+                #[trigger] vx_consolidated(l, self.session_shard_manager.shard_directory) && all_done(l, false, *self.cache_shard_manager),
+//@ before `for si in`
+        let ghost list0 = shard_list@;
+        let ghost mut outs: Seq<TaskRes> = Seq::empty();
+        let ghost dry0 = self.dry_run;
+        let ghost mgr0 = self.cache_shard_manager;
+//@ loop 1
+            invariant
+                vx_it.seq() == list0, dry0 == self.dry_run, mgr0 == self.cache_shard_manager,
+                // one task per shard taken from the list so far, each still pending or joined ...
+                /*@C11*/ outs.len() == vx_it.index@,
+                /*@C11*/ forall|j: int| 0 <= j < outs.len() ==> shard_uploads@.count(#[trigger] outs[j]) > 0,
+                // ... and a task that reports success has uploaded its shard, exported it to the cache directory and registered it there
+                /*@C11*/ forall|j: int| 0 <= j < outs.len() ==> task_ok(#[trigger] outs[j]) ==> shard_done(dry0, *list0[j], *mgr0),
+//@ before `shard_uploads.spawn(vx_ready(`
+            let ghost vx_pend_b = shard_uploads@;
+//@ after `shard_uploads.spawn(vx_ready(vx_task_out));`
+            proof {
+                // carries the property: the task spawned for THIS shard is bound to this shard, the CACHE manager and the session's dry_run flag
+                /*@C11*/ assert(exists|o: TaskRes| shard_uploads@ == #[trigger] vx_pend_b.insert(o) && (task_ok(o) ==> shard_done(dry0, *list0[vx_it.index@ as int], *mgr0)));
+                let o = choose|o: TaskRes| shard_uploads@ == #[trigger] vx_pend_b.insert(o) && (task_ok(o) ==> shard_done(dry0, *list0[vx_it.index@ as int], *mgr0));
+                outs = outs.push(o);
+            }
+//@ before `while let Some(jh)`
+        let ghost pend0 = shard_uploads@;
+//@ loop 2
+            invariant /*@C11*/ drained_ok(pend0, shard_uploads@),
+            ensures shard_uploads@.len() == 0,
+            decreases shard_uploads@.len(),
+//@ before `Ok(shard_bytes_uploaded`
+        proof {
+            lemma_drained_all(pend0, shard_uploads@);
+            assert forall|i: int| 0 <= i < list0.len() implies shard_done(dry0, *#[trigger] list0[i], *mgr0) by {
+                assert(pend0.count(outs[i]) > 0);
+            }
+        }
 //@ end
 }
 
